@@ -50,6 +50,27 @@ pub struct LineAttribution {
     pub overrode: Option<String>,
 }
 //#end
+// not used by the current text of the regions (they build the struct literally); present so that the equivalent
+// spelling LineAttribution::new(..) stays verifiable
+impl LineAttribution {
+//#item file=src/authorship/attribution_tracker.rs kind=fn name=new impl="LineAttribution"
+    pub fn new(
+        start_line: u32,
+        end_line: u32,
+        author_id: String,
+        overrode: Option<String>,
+    ) -> (r_: Self)
+    //@     ensures r_.start_line == start_line, r_.end_line == end_line, r_.author_id == author_id, r_.overrode == overrode,
+    {
+        LineAttribution {
+            start_line,
+            end_line,
+            author_id,
+            overrode,
+        }
+    }
+//#end
+}
 //#item file=src/authorship/virtual_attribution.rs kind=region name=split_committed_ranges in=to_authorship_log_and_initial_working_log from="let mut ranges = Vec::new();" to="let entry =" from_nth=0 to_nth=0 impl="VirtualAttributions" to_exclusive=yes
 //@ fn region_split_committed_ranges(lines: Vec<u32>) -> (r_: Vec<LineRange>)
 //@     requires strictly_inc(lines@), lines@.len() > 0,
@@ -135,7 +156,7 @@ pub struct LineAttribution {
 //@     ranges
 //@ }
 //#end
-//#item file=src/authorship/virtual_attribution.rs kind=region name=split_uncommitted_ranges in=to_authorship_log_and_initial_working_log from="// Create ranges from individual lines" to="});" from_nth=0 to_nth=1 impl="VirtualAttributions"
+//#item file=src/authorship/virtual_attribution.rs kind=region name=split_uncommitted_ranges in=to_authorship_log_and_initial_working_log from="// Create ranges from individual lines" to="$block_end" impl="VirtualAttributions"
 //@ fn region_split_uncommitted_ranges(lines: Vec<u32>, author_id: String, mut uncommitted_line_attrs: Vec<LineAttribution>) -> (r_: Vec<LineAttribution>)
 //@     requires strictly_inc(lines@), lines@.len() > 0,
 //@     ensures
